@@ -55,13 +55,18 @@ fn start_doc(k: usize) -> Document {
         }
         4 => {
             // sparse numbering (5, 9, 11 unused) with dangling references to a gap below the object count, to the number
-            // that becomes the LAST one after compaction (9 objects -> 9), to a gap above it and to a number beyond max_id
-            put(1, d(vec![("Type", name("Catalog")), ("Pages", r(2)), ("Gone", arr(vec![r(5), r(9), r(11), r(99)]))]));
+            // that becomes the last-but-two one after compaction (11 objects; 11 itself is also dangling and is the LAST one), to a gap above it and to a number beyond max_id
+            // "Stale" comes first: references with the number of a live object but another generation are met
+            // before the genuine references to (4, 0) and (10, 0)
+            put(1, d(vec![("Type", name("Catalog")), ("Stale", arr(vec![Object::Reference((4, 1)), Object::Reference((10, 7))])), ("Pages", r(2)), ("Gone", arr(vec![r(5), r(9), r(11), r(99)]))]));
             put(2, d(vec![("Type", name("Pages")), ("Kids", arr(vec![r(4), r(3)])), ("Count", Object::Integer(2))]));
             put(3, d(vec![("Type", name("Page")), ("Parent", r(2)), ("Contents", r(6)), ("Resources", r(7))]));
             put(4, d(vec![("Type", name("Page")), ("Parent", r(2)), ("Contents", arr(vec![r(8)])), ("Resources", r(7)), ("Next", r(9))]));
             put(6, stream(vec![], b"BT /F1 12 Tf (a) Tj ET"));
-            put(7, d(vec![("Font", d(vec![("F1", r(10))]))]));
+            // resource categories behind references (ExtGState, XObject), one direct (Font)
+            put(7, d(vec![("Font", d(vec![("F1", r(10))])), ("ExtGState", r(13)), ("XObject", r(14))]));
+            put(13, d(vec![("GS0", d(vec![("Type", name("ExtGState")), ("CA", Object::Real(0.5))]))]));
+            put(14, d(vec![("X9", r(6))]));
             put(8, stream(vec![("Missing", r(9))], b"BT /F1 12 Tf (b) Tj ET"));
             put(10, d(vec![("Type", name("Font")), ("Subtype", name("Type1")), ("BaseFont", name("Symbol"))]));
             put(12, d(vec![("Title", Object::string_literal("info")), ("Prev", r(11))]));
